@@ -193,11 +193,24 @@ int sm2_fast_sign(const sm2_z256_t fast_private, SM2_SIGN_PRE_COMP *pre_comp,
 	// r = e + x1 (mod n)
 	sm2_z256_modn_add(r, e, pre_comp->x1_modn);
 
+	// if r == 0 or r + k == n, return 0, caller should retry with another pre_comp
+	if (sm2_z256_is_zero(r)) {
+		return 0;
+	}
+	if (sm2_z256_add(s, r, pre_comp->k) == 0 && sm2_z256_cmp(s, sm2_z256_order()) == 0) {
+		return 0;
+	}
+
 	// s = (k + r) * d' - r
 	sm2_z256_modn_add(s, pre_comp->k, r);
 	sm2_z256_modn_to_mont(s, s);
 	sm2_z256_modn_mont_mul(s, s, fast_private); // mont(s) * d = s * R^-1 * d * R = s * d
 	sm2_z256_modn_sub(s, s, r);
+
+	// if s == 0, caller should retry with another pre_comp
+	if (sm2_z256_is_zero(s)) {
+		return 0;
+	}
 
 	sm2_z256_to_bytes(r, sig->r);
 	sm2_z256_to_bytes(s, sig->s);
@@ -559,6 +572,7 @@ int sm2_sign_finish(SM2_SIGN_CTX *ctx, uint8_t *sig, size_t *siglen)
 {
 	uint8_t dgst[SM3_DIGEST_SIZE];
 	SM2_SIGNATURE signature;
+	int ret;
 
 	if (!ctx || !sig || !siglen) {
 		error_print();
@@ -567,20 +581,22 @@ int sm2_sign_finish(SM2_SIGN_CTX *ctx, uint8_t *sig, size_t *siglen)
 
 	sm3_finish(&ctx->sm3_ctx, dgst);
 
-	if (ctx->num_pre_comp == 0) {
-		if (sm2_fast_sign_pre_compute(ctx->pre_comp) != 1) {
+	do {
+		if (ctx->num_pre_comp == 0) {
+			if (sm2_fast_sign_pre_compute(ctx->pre_comp) != 1) {
+				error_print();
+				return -1;
+			}
+			ctx->num_pre_comp = SM2_SIGN_PRE_COMP_COUNT;
+		}
+
+		ctx->num_pre_comp--;
+		if ((ret = sm2_fast_sign(ctx->fast_sign_private, &ctx->pre_comp[ctx->num_pre_comp],
+			dgst, &signature)) < 0) {
 			error_print();
 			return -1;
 		}
-		ctx->num_pre_comp = SM2_SIGN_PRE_COMP_COUNT;
-	}
-
-	ctx->num_pre_comp--;
-	if (sm2_fast_sign(ctx->fast_sign_private, &ctx->pre_comp[ctx->num_pre_comp],
-		dgst, &signature) != 1) {
-		error_print();
-		return -1;
-	}
+	} while (ret == 0); // r == 0, r + k == n or s == 0: use the next nonce
 
 	*siglen = 0;
 	if (sm2_signature_to_der(&signature, &sig, siglen) != 1) {
